@@ -67,9 +67,21 @@ pub fn e1_slice<T: Zed, const TRY: bool>() {
             kani::cover!(len > usize::MAX / 2, "REACH: count whose byte size overflows");
             kani::cover!(len == 256 / sz + 1, "REACH: count just above what exists");
         } else {
-            let r = bump.alloc_slice_fill_with(len, f);
-            kani::cover!(true, "NEVER: alloc_slice_fill_with returned for a length that cannot be satisfied (must panic)");
-            core::mem::forget(r);
+            let w: bool = kani::any();
+            if w {
+                let r = bump.alloc_slice_fill_with(len, f);
+                kani::cover!(true, "NEVER: [C19] alloc_slice_fill_with returned for a length that cannot be satisfied (must panic)");
+                core::mem::forget(r);
+            } else {
+                let r: Result<&mut [T], ()> = bump.alloc_slice_try_fill_with(len, |_i| {
+                    INIT_RAN = true;
+                    kani::assume(false);
+                    Err(())
+                });
+                vassert!(!INIT_RAN, "NEVER: [C11,C19] initialiser run for a slice whose size cannot have been reserved");
+                kani::cover!(true, "NEVER: [C19] alloc_slice_try_fill_with returned for a length that cannot be satisfied (must panic)");
+                core::mem::forget(r);
+            }
         }
     }
 }
